@@ -698,7 +698,7 @@ func c15TimeFlush(c *Ctx, r *Report) {
 			bodyHead = nd.ID
 		}
 	}
-	isSend := func(nd *FNode) bool { _, ok := nd.N.(*ast.SendStmt); return ok }
+	isSend := func(nd *FNode) bool { return len(nodeSends(c, info, nd)) > 0 }
 	n := 0
 	for _, nd := range fg.Nodes {
 		as, ok := nd.N.(*ast.AssignStmt)
@@ -721,14 +721,7 @@ func c15TimeFlush(c *Ctx, r *Report) {
 		}
 		txt := exprStr(is.Cond)
 		if strings.Contains(txt, "time.Since("+ts.Name()+")") && strings.Contains(txt, "||") {
-			hasSend := false
-			ast.Inspect(is.Body, func(m ast.Node) bool {
-				if _, isS := m.(*ast.SendStmt); isS {
-					hasSend = true
-				}
-				return true
-			})
-			okCond = hasSend
+			okCond = len(sendSitesIn(c, info, is.Body)) > 0
 		}
 		return true
 	})
